@@ -2,7 +2,7 @@
 # run the target property's quick check against every seeded change (on a scratch worktree, via PYVC_REPO)
 # usage: eval_seeded.sh [pattern]   -> lines "<id> exit=<code> <summary>"
 cd /verif
-WT=/tmp/wt/eval
+WT=/tmp/wt/eval${SHARD:-}
 git -C /repo worktree remove --force $WT >/dev/null 2>&1
 git -C /repo worktree add --detach $WT HEAD >/dev/null 2>&1
 for d in /verif/seeded/${1:-*}; do
